@@ -6,7 +6,7 @@
    anything at all.  No bound on the length of the run, on window sizes or on payloads. *)
 From Coq Require Import ZArith List Bool.
 From KV.Base Require Import Consts Word.
-From KV.Kcp Require Import Kcp Step Net NetAll.
+From KV.Kcp Require Import Kcp Step Net NetAll NetExample.
 Import ListNotations.
 Local Open Scope Z_scope.
 
@@ -55,5 +55,5 @@ Print Assumptions c01_fec_idempotent.
 (* non-vacuity: a run in which data is written, lost once, retransmitted, duplicated and read *)
 Example c01_example :
   exists s0 evs s, sys_init s0 /\ sys_run s0 evs s /\ stream (sA s0) = 0 /\
-     no_wrap (sg_numbered (gA s)) /\ rg_delivered (gB s) = [[1; 2; 3]] /\ length (wire s) >= 2%nat.
+     no_wrap (sg_numbered (gA s)) /\ rg_delivered (gB s) = [[1; 2; 3]] /\ (length (wire s) >= 2)%nat.
 Proof. exact net_example. Qed.
